@@ -1,4 +1,65 @@
-From LD Require Import Base F32 Data Model Ops Bucket Eval EvalFacts.
+(* C02 Flag decision order: off, prerequisites, targets, rules, fallthrough.
+   Stated on the reference interpreter (Pure.v); C02_model_is_reference ties the trace-producing model to it. *)
+From LD Require Import Base F32 Data Model Ops Bucket Eval EvalFacts Pure Refine Order.
+
+(* the model (what is run against the implementation) computes the reference interpreter's value, index, reason *)
+Theorem C02_model_is_reference : forall re_ok re_match o E P c f out,
+  run re_ok re_match o E P c f = Done out ->
+  exists d, p_run re_ok re_match o E P c f = Done d /\
+            d_value (out_detail out) = d_value d /\ d_index (out_detail out) = d_index d /\
+            rs_kind (d_reason (out_detail out)) = rs_kind (d_reason d) /\
+            rs_inexp (d_reason (out_detail out)) = rs_inexp (d_reason d).
+Proof. exact run_is_pure. Qed.
+Print Assumptions C02_model_is_reference.
+
+(* stage 1: targeting off gives the off variation with reason OFF, whatever else the flag contains *)
+Theorem C02_off : forall re_ok re_match o E P c n chain f,
+  f_on f = false -> p_eval re_ok re_match o E P c (S n) chain f = Done (p_off_value f (plain_reason ROff), true).
+Proof. exact p_eval_off. Qed.
+Print Assumptions C02_off.
+
+(* stage 2: prerequisites are examined in listed order; the outcome is decided by the FIRST one that is missing,
+   unmet, cyclic or aborted, all earlier ones being met *)
+Theorem C02_first_unmet_prerequisite : forall E ev chain' ps out,
+  p_prereqs E ev chain' ps = Done out ->
+  (exists pre p post, ps = pre ++ p :: post /\ Forall (fun q => prereq_step E ev chain' q = Done None) pre /\
+                      prereq_step E ev chain' p = Done (Some out))
+  \/ (Forall (fun q => prereq_step E ev chain' q = Done None) ps /\ out = POk).
+Proof. exact p_prereqs_outcome. Qed.
+Print Assumptions C02_first_unmet_prerequisite.
+
+Theorem C02_prerequisite_failed_gives_off_variation : forall re_ok re_match o E P c n chain f k,
+  f_on f = true -> prereqs_of re_ok re_match o E P c n chain f = Done (PFailed k) ->
+  p_eval re_ok re_match o E P c (S n) chain f = Done (p_off_value f (plain_reason (RPrereqFailed k)), true).
+Proof. exact p_eval_prereq_failed. Qed.
+Print Assumptions C02_prerequisite_failed_gives_off_variation.
+
+(* stage 3: with prerequisites met, a matching target decides regardless of any rule or of the fallthrough *)
+Theorem C02_target_overrides_rules : forall re_ok re_match o E P c n chain f v,
+  f_on f = true -> prereqs_of re_ok re_match o E P c n chain f = Done POk -> any_target_match c f = Some v ->
+  p_eval re_ok re_match o E P c (S n) chain f = Done (p_get_variation f v (plain_reason RTarget), true).
+Proof. exact p_eval_target. Qed.
+Print Assumptions C02_target_overrides_rules.
+
+(* stages 4 and 5: the first rule, in listed order, all of whose clauses match serves its variation/rollout with
+   RULE_MATCH carrying that rule's index (= number of earlier rules) and id; a rule whose matching fails before any
+   match aborts; only if no rule matches is the fallthrough served *)
+Theorem C02_first_matching_rule : forall re_ok re_match o E P c f d ok,
+  p_rules re_ok re_match o E c (p_seg re_ok re_match o E P c (seg_fuel E) []) f (f_rules f) 0 = Done (d, ok) ->
+  (exists pre ru post, f_rules f = pre ++ ru :: post /\
+      Forall (fun r => rule_status re_ok re_match o E P c r = Done (Ok false)) pre /\
+      rule_status re_ok re_match o E P c ru = Done (Ok true) /\
+      p_vr_detail o c f (ru_vr ru) (plain_reason (RRule (zlen pre) (ru_id ru))) = Done d /\ ok = true)
+  \/ (exists pre ru post e, f_rules f = pre ++ ru :: post /\
+      Forall (fun r => rule_status re_ok re_match o E P c r = Done (Ok false)) pre /\
+      rule_status re_ok re_match o E P c ru = Done (Err e) /\
+      d = err_detail (err_kind e) /\ ok = false)
+  \/ (Forall (fun r => rule_status re_ok re_match o E P c r = Done (Ok false)) (f_rules f) /\
+      p_vr_detail o c f (f_fallthrough f) (plain_reason RFallthrough) = Done d /\ ok = true).
+Proof. exact p_rules_outcome. Qed.
+Print Assumptions C02_first_matching_rule.
+
+(* a rule or fallthrough with a fixed variation ignores any rollout also present *)
 Theorem C02_fixed_variation_wins : forall o c vr v key salt,
   vr_var vr = Some v -> vr_result o c vr key salt = Done (Ok (v, false)).
 Proof. exact vr_result_fixed. Qed.
